@@ -25,8 +25,6 @@ KEY_UNIFORM = 'scale-type-uniform-discrete-not-on-wire'
 KEY_METRIC_ORDER = 'studyconfig-metrics-reordered-by-name'
 KEY_TRAILING_BS = 'ns-component-trailing-backslash'
 KEY_NO_PREDICTION = 'earlystop-decision-without-prediction'
-FLAG_KEYS = [('readNanos', KEY_NANOS), ('defaultHasField', KEY_DEFAULT),
-             ('recurseBeforeCopy', KEY_DEPTH), ('infeasibleEndTime', KEY_INFEASIBLE_TIME)]
 
 EPOCH = datetime.datetime(1970, 1, 1, tzinfo=datetime.timezone.utc)
 US = datetime.timedelta(microseconds=1)
@@ -742,20 +740,6 @@ def pc_depth(p):
 def falsy_default(p):
   d = p['dom'].get('d')
   return d is not None and d in (0, '0/1', [])
-
-
-def md_lists(j):
-  if isinstance(j, dict):
-    out = []
-    for k, v in j.items():
-      if k in ('md', 'study') and isinstance(v, list) and (k == 'study' or not (v and isinstance(v[0], dict))):
-        out.append(v)
-      else:
-        out += md_lists(v)
-    return out
-  if isinstance(j, list):
-    return [m for v in j for m in md_lists(v)]
-  return []
 
 
 def has_trailing_bs(j):
